@@ -193,8 +193,8 @@ class Exec:
                     r._harvested = True
                     if r.status == 200 and r.exc is None:
                         self._harvest_body(s, r, 'poll')
-                    else:
-                        s.client_closed = True
+                    elif getattr(r, '_odd_upgrade', None) is None:
+                        s.client_closed = True      # (a refused upgrade attempt ends nothing)
             for conn, via in ((s.open_conn, 'ws'), (s.main_ws, 'ws'), (s.upg, 'upg')):
                 if conn is None:
                     continue
@@ -211,6 +211,11 @@ class Exec:
                     s.client_closed = True
             for a in s.upg_attempts:
                 conn = a['conn']
+                if conn.done and conn.http_status == 200 and not conn.accepted and \
+                        conn.resp_body and not getattr(conn, '_harvested', False):
+                    # the server treated the request as a poll: the answer carries packets
+                    conn._harvested = True
+                    self._harvest_body(s, conn, 'poll')
                 if conn is s.upg or conn is s.main_ws:
                     continue
                 k = id(conn)
@@ -322,8 +327,9 @@ class Exec:
         fr = [f for _, f in att['frames']]
         return 'open' if fr in ([], ['2probe']) else 'none'
 
-    def _start_poll(self, s, immediate=True):
-        r = self.world.http('GET', 'transport=polling&EIO=4&sid=' + self.sid_of(s))
+    def _start_poll(self, s, immediate=True, headers=(), query=None):
+        r = self.world.http('GET', query or 'transport=polling&EIO=4&sid=' + self.sid_of(s),
+                            headers=list(headers))
         r.role, r.sess = 'poll', s
         r._step = len(self.actions)
         r._immediate = immediate
@@ -474,7 +480,21 @@ class Exec:
         if s is None or self.sid_of(s) is None:
             return
         q = 'transport=%s&EIO=4&sid=%s' % (a.get('qtransport', 'websocket'), self.sid_of(s))
-        conn = self.world.ws_open(q, headers=[('Host', 'localhost')])
+        hdr = a.get('hdr')
+        if hdr is not None:
+            uh = [('Upgrade', hdr), ('Connection', a.get('conn_hdr', 'Upgrade'))]
+            exact = hdr.lower() == 'websocket' and 'upgrade' in [
+                x.strip().lower() for x in a.get('conn_hdr', 'Upgrade').split(',')]
+            if self.impl == 'async' and not exact:
+                # an ASGI server only opens a websocket scope for "Upgrade: websocket"; anything
+                # else reaches the application as a plain GET carrying these headers
+                r = self._start_poll(s, headers=uh, query=q)
+                r._odd_upgrade = hdr
+                return
+            conn = self.world.ws_open(q, headers=[('Host', 'localhost')], upgrade_hdrs=uh)
+            conn._odd_upgrade = hdr
+        else:
+            conn = self.world.ws_open(q, headers=[('Host', 'localhost')])
         conn.role, conn.sess = 'upgrade', s
         s.upg = conn
         s.upg_attempts.append({'conn': conn, 'frames': [], 't': self.now,
@@ -698,10 +718,12 @@ class Exec:
             if not s.vanished:
                 s.autopong = True
                 s.autopoll = True
-                if s.upg is not None and not s.upg.done and s.main_ws is None:
-                    # the client gives up a handshake it never finished
-                    self.world.ws_client_close(s.upg)
-                    s.upg.t_peer_closed = self.now
+                if s.main_ws is None:
+                    # the client gives up every handshake it never finished
+                    for c in [s.upg] + [x['conn'] for x in s.upg_attempts]:
+                        if c is not None and not c.done and not c.peer_closed:
+                            self.world.ws_client_close(c)
+                            c.t_peer_closed = self.now
         self.drained_at = self.now
         if isinstance(horizon, (list, tuple)):
             horizon = horizon[0] * self.I + horizon[1] * self.T
@@ -890,6 +912,14 @@ class Drawer:
         a = {'op': 'upg_connect', 's': self.session_index()}
         if self.draw(st.integers(0, 9)) == 0:
             a['qtransport'] = 'polling'
+        pct = self.profile.get('odd_upgrade_hdr_pct', 0)
+        if pct and self.draw(st.integers(0, 99)) < pct:
+            a['hdr'] = self.draw(st.sampled_from(['WebSocket', 'websocket, h2c', 'h2c, websocket',
+                                                  'h2c', ' websocket', 'websocket,websocket']))
+            a['qtransport'] = self.draw(st.sampled_from(['polling', 'polling', 'websocket']))
+            if self.draw(st.integers(0, 5)) == 0:
+                a['conn_hdr'] = self.draw(st.sampled_from(['keep-alive, Upgrade', 'keep-alive',
+                                                           'upgrade']))
         return a
 
     def a_probe_step(self):
